@@ -38,3 +38,105 @@ package argmapper
 //@   pure
 //@   requires [in-range] 0 <= i && i < len(r.out) && valid(r.out[i])
 //@   ensures result == iface(r.out[i])
+
+// ---------------------------------------------------------------- args.go (C16, C12)
+// Every non-nil Arg is a closure created by one of this package's option
+// constructors: the parameter type *argBuilder is unexported, so no other
+// package can write a function of type Arg.
+//@ closedtype argmapper.Arg
+
+//@ sort NamedM = map[string]reflect.Value
+//@ sort NamedSubM = map[string]map[string]reflect.Value
+//@ sort TypedM = map[reflect.Type]reflect.Value
+//@ sort TypedSubM = map[reflect.Type]map[string]reflect.Value
+
+// wfB: a builder as newArgBuilder creates it
+//@ ghost wfB(a *argBuilder) bool = a != nil && a.named != nil && a.namedSub != nil && a.typed != nil && a.typedSub != nil
+//@     && forall(k, string, imp(has(a.namedSub, k), a.namedSub[k] != nil && a.namedSub[k] != a.named))
+//@     && forall(k, string, j, string, imp(has(a.namedSub, k) && has(a.namedSub, j) && k != j, a.namedSub[k] != a.namedSub[j]))
+//@     && forall(t, reflect.Type, imp(has(a.typedSub, t), a.typedSub[t] != nil && a.typedSub[t] != a.named))
+//@     && forall(t, reflect.Type, u, reflect.Type, imp(has(a.typedSub, t) && has(a.typedSub, u) && t != u, a.typedSub[t] != a.typedSub[u]))
+//@     && forall(k, string, t, reflect.Type, imp(has(a.namedSub, k) && has(a.typedSub, t), a.namedSub[k] != a.typedSub[t]))
+// nothing but the builder's own maps changes (options never touch other builders)
+//@ ghost builderFrame(a *argBuilder) bool =
+//@     forall(m, NamedM, imp(old(allocated(m)) && m != a.named && !old(exists(k, string, has(a.namedSub, k) && a.namedSub[k] == m)) && !old(exists(t, reflect.Type, has(a.typedSub, t) && a.typedSub[t] == m)), unchanged(m)))
+//@     && forall(m, NamedSubM, imp(old(allocated(m)) && m != a.namedSub, unchanged(m)))
+//@     && forall(m, TypedM, imp(old(allocated(m)) && m != a.typed, unchanged(m)))
+//@     && forall(m, TypedSubM, imp(old(allocated(m)) && m != a.typedSub, unchanged(m)))
+
+//@ func Named
+//@   ensures result != nil
+//@   ensures imp(n != "", fncode(result) == litcode("argmapper.Named$1") && captured(result, "argmapper.Named$1", "n") == n && captured(result, "argmapper.Named$1", "v") == v)
+//@   assigns nothing
+
+//@ func Named$1
+//@   requires wfB(a)
+//@   ensures  result == nil && wfB(a)
+//@   ensures  [sets-lowercased-key] imp(v != nil, has(a.named, lower(n)) && a.named[lower(n)] == rvof(v))
+//@   ensures  [nil-ignored-others-kept] forall(k, string, imp(k != lower(n) || v == nil, has(a.named, k) == old(has(a.named, k)) && a.named[k] == old(a.named[k])))
+//@   ensures  [frame] forall(m, NamedM, imp(m != a.named, unchanged(m)))
+//@   assigns  NamedM
+
+//@ func NamedSubtype$1
+//@   requires wfB(a)
+//@   ensures  result == nil && wfB(a)
+//@   ensures  [sets-lowercased-key] imp(v != nil, has(a.namedSub, lower(old(n))) && has(a.namedSub[lower(old(n))], st) && a.namedSub[lower(old(n))][st] == rvof(v))
+//@   ensures  [nil-ignored-others-kept] forall(k, string, s, string, imp(!(k == lower(old(n)) && s == st) || v == nil, has(a.namedSub[k], s) == old(has(a.namedSub[k], s)) && a.namedSub[k][s] == old(a.namedSub[k][s])))
+//@   ensures  [frame] unchanged(a.named) && builderFrame(a)
+//@   assigns  NamedM, NamedSubM
+
+//@ func Typed$1
+//@   requires wfB(a)
+//@   ensures  result == nil && wfB(a)
+//@   ensures  [sets] forall(j, int, imp(0 <= j && j < len(vs) && vs[j] != nil, has(a.typed, dyntype(vs[j]))))
+//@   ensures  [last-wins] forall(j, int, imp(0 <= j && j < len(vs) && vs[j] != nil && forall(i, int, imp(j < i && i < len(vs) && vs[i] != nil, dyntype(vs[i]) != dyntype(vs[j]))), a.typed[dyntype(vs[j])] == rvof(vs[j])))
+//@   ensures  [nil-ignored-others-kept] forall(t, reflect.Type, imp(forall(j, int, imp(0 <= j && j < len(vs) && vs[j] != nil, dyntype(vs[j]) != t)), has(a.typed, t) == old(has(a.typed, t)) && a.typed[t] == old(a.typed[t])))
+//@   ensures  [frame] forall(m, TypedM, imp(m != a.typed, unchanged(m)))
+//@   assigns  TypedM
+//@   loop 1 invariant a.typed != nil && a.typed == old(a.typed) && forall(m, TypedM, imp(m != a.typed, unchanged(m)))
+//@   loop 1 invariant forall(j, int, imp(0 <= j && j < idx1 && vs[j] != nil, has(a.typed, dyntype(vs[j]))))
+//@   loop 1 invariant forall(j, int, imp(0 <= j && j < idx1 && vs[j] != nil && forall(i, int, imp(j < i && i < idx1 && vs[i] != nil, dyntype(vs[i]) != dyntype(vs[j]))), a.typed[dyntype(vs[j])] == rvof(vs[j])))
+//@   loop 1 invariant forall(t, reflect.Type, imp(forall(j, int, imp(0 <= j && j < idx1 && vs[j] != nil, dyntype(vs[j]) != t)), has(a.typed, t) == old(has(a.typed, t)) && a.typed[t] == old(a.typed[t])))
+
+//@ func TypedSubtype$1
+//@   requires wfB(a)
+//@   ensures  result == nil && wfB(a)
+//@   ensures  [sets] imp(v != nil, has(a.typedSub, dyntype(v)) && has(a.typedSub[dyntype(v)], st) && a.typedSub[dyntype(v)][st] == rvof(v))
+//@   ensures  [nil-ignored-others-kept] forall(t, reflect.Type, s, string, imp(!(t == dyntype(v) && s == st) || v == nil, has(a.typedSub[t], s) == old(has(a.typedSub[t], s)) && a.typedSub[t][s] == old(a.typedSub[t][s])))
+//@   ensures  [frame] unchanged(a.named) && builderFrame(a)
+//@   assigns  NamedM, TypedSubM
+
+//@ func ConverterFunc$1
+//@   requires a != nil
+//@   ensures  result == nil
+//@   assigns  argBuilder.convs, []*Func
+
+//@ func ConverterGen$1
+//@   requires a != nil
+//@   ensures  result == nil
+//@   assigns  argBuilder.convGens, []ConverterGenFunc
+
+//@ func FilterInput$1
+//@   requires a != nil
+//@   ensures  result == nil && a.filterInput == f
+//@   assigns  argBuilder.filterInput
+
+//@ func FilterOutput$1
+//@   requires a != nil
+//@   ensures  result == nil && a.filterOutput == f
+//@   assigns  argBuilder.filterOutput
+
+//@ func Logger$1
+//@   requires a != nil
+//@   ensures  result == nil && a.logger == l
+//@   assigns  argBuilder.logger
+
+//@ func FuncName$1
+//@   requires a != nil
+//@   ensures  result == nil && a.funcName == n
+//@   assigns  argBuilder.funcName
+
+//@ func FuncOnce$1
+//@   requires a != nil
+//@   ensures  result == nil && a.funcOnce
+//@   assigns  argBuilder.funcOnce
